@@ -119,6 +119,24 @@ CHECKS = {
         note="Trusted: TLC, the regular-expression readers of generated C/Fortran, PyYAML. Class scope and "
              "bufferify variants are not in the enumerated domain yet (numeric parameter types only).",
     ),
+    "C15": dict(
+        level="model_checking",
+        design="DESIGN.md section 4 / C15",
+        technique="TLA+ spec WrapSelect (effective flags with library defaults and per-declaration overrides, pass "
+                  "machine C/Fortran/utility/Python/Lua, file registration) model-checked with TLC; write_output_file "
+                  "events, --cfiles/--ffiles contents, directory listings and declaration presence of real command-line "
+                  "runs validated against Trace_WrapSelect by TLC; digest comparison of toggle pairs",
+        text="TLC explores every flag combination (Fortran only with C) x overrides of one declaration x directory "
+             "assignments x every interleaving of file writes the pass structure allows: no file for a language that "
+             "is off, every file in its designated directory, lists exact. Conformance: 6 library shapes (functions, "
+             "class, namespace, default argument, overload set, std::string) x 12 flag combinations x 5 overrides x "
+             "directory assignments run through the real command line; every write_output_file call is replayed "
+             "through the pass machine, list files and directory listings must equal the reported writes, each "
+             "declaration must be present exactly in the languages its effective flag selects; runs differing only in "
+             "wrap_python/wrap_lua must produce identical C and Fortran files.",
+        note="Trusted: TLC, the probe on write_output_file, name-based presence detection. setup.py and the "
+             "*_types.yaml file are treated as auxiliary files of --outdir.",
+    ),
 }
 
 ALL = ["C%02d" % i for i in range(1, 19)]
